@@ -1,6 +1,6 @@
 //! Mechanical, behaviour-preserving source rewrites used to test the checks for false alarms.
 //! usage: refactor <file.rs> <fn name | *> <transform>   -> rewritten file on stdout, number of rewrites on stderr
-//! transforms: flip-if, swap-cmp, nest-and, temp-cond, compound-assign, while-to-loop
+//! transforms: flip-if, swap-cmp, nest-and, temp-cond, compound-assign, while-to-loop, or-split, demorgan, cond-closure, if-to-match
 use proc_macro2::Span;
 use quote::ToTokens;
 use std::cell::Cell;
@@ -60,6 +60,51 @@ impl VisitMut for Rewriter {
                                 *e = new;
                                 self.count.set(self.count.get() + 1);
                             }
+                        }
+                    }
+                } else if t == "or-split" {
+                    if i.else_branch.is_none() {
+                        if let Expr::Binary(b) = &*i.cond {
+                            if matches!(b.op, BinOp::Or(_)) {
+                                let (l, r) = (&b.left, &b.right);
+                                let then_b = &i.then_branch;
+                                let new: Expr = parse_quote!(if #l #then_b else if #r #then_b);
+                                *e = new;
+                                self.count.set(self.count.get() + 1);
+                            }
+                        }
+                    }
+                } else if t == "demorgan" {
+                    if let Expr::Binary(b) = &*i.cond {
+                        let (l, r) = (&b.left, &b.right);
+                        let newc: Option<Expr> = match b.op {
+                            BinOp::And(_) => Some(parse_quote!(!(!(#l) || !(#r)))),
+                            BinOp::Or(_) => Some(parse_quote!(!(!(#l) && !(#r)))),
+                            _ => None,
+                        };
+                        if let Some(nc) = newc {
+                            i.cond = Box::new(nc);
+                            self.count.set(self.count.get() + 1);
+                        }
+                    }
+                } else if t == "cond-closure" && !i.cond.to_token_stream().to_string().contains('?') && !i.cond.to_token_stream().to_string().contains("return") {
+                    let cond = &i.cond;
+                    let then_b = &i.then_branch;
+                    let new: Expr = match &i.else_branch {
+                        Some((_, eb)) => parse_quote!({ let cond_holds = || -> bool { #cond }; if cond_holds() #then_b else #eb }),
+                        None => parse_quote!({ let cond_holds = || -> bool { #cond }; if cond_holds() #then_b }),
+                    };
+                    *e = new;
+                    self.count.set(self.count.get() + 1);
+                } else if t == "if-to-match" {
+                    if let Some((_, else_branch)) = &i.else_branch {
+                        if let Expr::Block(eb) = &**else_branch {
+                            let cond = &i.cond;
+                            let then_b = &i.then_branch;
+                            let else_b = &eb.block;
+                            let new: Expr = parse_quote!(match #cond { true => #then_b, false => #else_b });
+                            *e = new;
+                            self.count.set(self.count.get() + 1);
                         }
                     }
                 } else if t == "temp-cond" {
@@ -126,6 +171,9 @@ struct Finder<'a> {
 
 impl<'a> VisitMut for Finder<'a> {
     fn visit_item_fn_mut(&mut self, f: &mut ItemFn) {
+        if f.sig.constness.is_some() && self.rw.transform == "cond-closure" {
+            return;
+        }
         if self.name == "*" || f.sig.ident == self.name {
             let span = f.span();
             let before = self.rw.count.get();
@@ -138,6 +186,9 @@ impl<'a> VisitMut for Finder<'a> {
         }
     }
     fn visit_impl_item_fn_mut(&mut self, f: &mut ImplItemFn) {
+        if f.sig.constness.is_some() && self.rw.transform == "cond-closure" {
+            return;
+        }
         if self.name == "*" || f.sig.ident == self.name {
             let span = f.span();
             let before = self.rw.count.get();
